@@ -420,7 +420,7 @@ def configs(tier, seed):
     def names(space, *want):
         return [n for n in want if n in ref.P2E[space]]
 
-    ALLP = ("none", "empty", "one-empty", "partial", "dups", "full", "offgrid", "ongrid", "castable", "onbound")
+    ALLP = ("none", "empty", "one-empty", "partial", "dups", "full", "offgrid", "ongrid", "castable", "onbound", "nearbound")
 
     # ---- A. finite spaces, explored until the searcher answers None twice (T = size + 2)
     for kind in ("fifo-random", "fifo-grid", "fifo-bo-rand", "hb-stop-random", "hb-prom-random", "hb-stop-bo-rand",
@@ -502,6 +502,11 @@ def configs(tier, seed):
             if p == "none" and (q or not kind.startswith("dehb")):
                 continue
             out.append(_mk(kind, "logb", p, seed=0, W=2, F=1, T=5, D=10, max_states=600 if q else 2000))
+    # PBT's exploration step (and the random / DEHB samplers) on domains with negative values
+    for kind in ("pbt", "dehb", "fifo-random"):
+        for p in ("nearbound", "none"):
+            for sd in (0, 1) if kind == "pbt" else (0,):
+                out.append(_mk(kind, "neg", p, seed=sd, W=2, F=1, T=7, D=14, max_states=1500 if q else 4000))
     # ---- D. GP searchers with the real BO path (model fit + acquisition optimisation), small depth
     gp_spaces = ("fin6", "inf") if q else ("fin6", "fin9", "inf", "mix", "degen")
     for kind in ("fifo-bo", "hb-stop-bo", "hb-prom-bo", "hb-stop-hypertune", "hb-prom-hypertune"):
